@@ -34,6 +34,12 @@ Renderings(v) ==
   IN << [kind |-> "int-bin-min",    v |-> v, bytes |-> BVM \o Header(T, Len(iv.mag), 0) \o iv.mag],
         [kind |-> "int-bin-padded", v |-> v, bytes |-> BVM \o Header(T, Len(iv.mag) + 1, 0) \o <<0>> \o iv.mag],
         [kind |-> "int-bin-L14",    v |-> v, bytes |-> BVM \o Header(T, Len(iv.mag), 1) \o iv.mag],
+        \* a magnitude field of 9 and of 16 bytes whatever the value (leading zero bytes are legal): a reader that holds
+        \* long fields as big integers must still answer by value
+        [kind |-> "int-bin-padded9", v |-> v, bytes |-> LET z == IF Len(iv.mag) < 9 THEN 9 - Len(iv.mag) ELSE 1
+                                                        IN BVM \o Header(T, Len(iv.mag) + z, 0) \o [k \in 1..z |-> 0] \o iv.mag],
+        [kind |-> "int-bin-padded16", v |-> v, bytes |-> LET z == IF Len(iv.mag) < 16 THEN 16 - Len(iv.mag) ELSE 2
+                                                         IN BVM \o Header(T, Len(iv.mag) + z, 0) \o [k \in 1..z |-> 0] \o iv.mag],
         [kind |-> "int-text-dec",   v |-> v, bytes |-> Sign(iv) \o Chars(DecDigits(iv.mag))],
         [kind |-> "int-text-hex",   v |-> v, bytes |-> Sign(iv) \o <<48, 120>> \o Chars(HexDigits(iv.mag))],
         [kind |-> "int-text-bin",   v |-> v, bytes |-> Sign(iv) \o <<48, 98>> \o Chars(BinDigits(iv.mag))] >>
